@@ -1156,7 +1156,9 @@ def correspondence(ctx) -> CorrResult:
             shards.append(cur); owners.append(own); cur, own = HEADER, []
     if own:
         shards.append(cur); owners.append(own)
-    results = core.run_cases(ctx, shards, prefix="cond")
+    # 2^-384 fixed-point Kalman runs: 10-20 s of CPU per shard; the default 600 s per file is too short when the machine
+    # is heavily loaded by other checks (a timed-out shard would be reported as a coq-error disagreement)
+    results = core.run_cases(ctx, shards, prefix="cond", timeout=2400)
     evaluated = 0
     for (ok, out), own in zip(results, owners):
         if not ok:
